@@ -8,7 +8,7 @@
 (*   T0  between statements            P   plain statement, depth 0          *)
 (*   R   inside ( )                    CX  CASE expression ... END           *)
 (*   CH  CREATE FUNCTION/PROCEDURE/TRIGGER header                            *)
-(*   DS  DECLARE section               B0  outermost BEGIN body              *)
+(*   DS/DS1/DS2 DECLARE section        B0  outermost BEGIN body              *)
 (*   B   nested BEGIN body             S0/S simple body statement ... ;      *)
 (*   IC  IF condition   IB  IF body ... END IF                               *)
 (*   FH  FOR header     WH  WHILE header                                     *)
@@ -97,10 +97,15 @@ Moves(stk) ==
            \cup (IF CanPush(stk) THEN { Mv(Tok("lp", "lp"), Push(stk, "R"), FALSE) } ELSE {})
            \cup (IF "declare" \in Allow THEN { Mv(Tok("declare", "declare"), Repl(stk, "DS"), FALSE) } ELSE {})
            \cup { Mv(Tok("begin", "begin"), Repl(stk, "B0"), FALSE) }
-      [] f = "DS" ->
-           Stay(stk, { Tok("other", "name"), Tok("other", "type"), Tok("ws", "ws"), Tok("nl", "nl"),
-                       Tok("semi", "semi") })
-           \cup { Mv(Tok("begin", "begin"), Repl(stk, "B0"), FALSE) }
+      [] f = "DS" ->       \* DECLARE section: at least one declaration `name type ;`
+           Stay(stk, { Tok("ws", "ws"), Tok("nl", "nl") })
+           \cup { Mv(Tok("other", "name"), Repl(stk, "DS1"), FALSE) }
+      [] f = "DS1" ->
+           Stay(stk, { Tok("other", "type"), Tok("ws", "ws") })
+           \cup { Mv(Tok("semi", "semi"), Repl(stk, "DS2"), FALSE) }
+      [] f = "DS2" ->
+           Stay(stk, { Tok("ws", "ws"), Tok("nl", "nl") })
+           \cup { Mv(Tok("other", "name"), Repl(stk, "DS1"), FALSE), Mv(Tok("begin", "begin"), Repl(stk, "B0"), FALSE) }
       [] f = "B0" -> BodyStarts(stk) \cup { Mv(Tok("end", "end"), Repl(stk, "CE"), FALSE) }
       [] f = "B"  -> BodyStarts(stk) \cup { Mv(Tok("end", "end"), Repl(stk, "ES"), FALSE) }
       [] f = "S0" -> { Mv(Tok("other", "assign"), Repl(stk, "S"), FALSE), Mv(Tok("ws", "ws"), stk, FALSE),
@@ -130,7 +135,7 @@ Moves(stk) ==
 Closing(stk) ==
     LET f == Top(stk)
         want == CASE f = "P" -> {"semi"} [] f = "R" -> {"rp"} [] f = "CX" -> {"end"}
-                  [] f = "CH" -> {"begin"} [] f = "DS" -> {"begin"} [] f = "B0" -> {"end"}
+                  [] f = "CH" -> {"begin"} [] f = "DS" -> {"name"} [] f = "DS1" -> {"semi"} [] f = "DS2" -> {"begin"} [] f = "B0" -> {"end"}
                   [] f = "B" -> {"end"} [] f = "S" -> {"semi"} [] f = "S0" -> {"semi"} [] f = "IC" -> {"then"}
                   [] f = "IB" -> {"endif"} [] f = "FH" -> {"loop"} [] f = "WH" -> {"loop", "do"}
                   [] f = "LB" -> {"endloop"} [] f = "WB" -> {"endwhile"} [] f = "CS" -> {"end"}
